@@ -3,8 +3,8 @@ import uuid as _uuid
 
 from ..core.loader import AnalysisError
 from ..core import rxmodel
-from ..core.table import extract, grid_compare
-from ..core.termeval import ev, Raised
+from ..core.table import extract, grid_compare, inexact_notes
+from ..core.termeval import ev, Raised, CannotEval
 from ..core.values import K, T, Obj, TupleV, ListV, ExtRef, FuncRef, show
 
 TRUE_DOC = ('1', 't', 'true', 'on', 'y', 'yes')
@@ -313,8 +313,13 @@ def _uuid_rules(ctx):
             interp.call_raises['int'] = ['ValueError', 'TypeError']
             interp.types[val] = kind
             if kind == 'other':
-                # str methods on a non-str argument
-                interp.method_raises.update({})
+                # str methods applied to a non-str argument: evaluated on
+                # the grid value (AttributeError for most, TypeError for
+                # bytes with str operands)
+                from ..core.models import PURE_STR_METHODS
+                interp.pure_methods.update(PURE_STR_METHODS)
+                for m in PURE_STR_METHODS:
+                    interp.method_raises[m] = ['AttributeError', 'TypeError']
         outcomes, _i = extract(world, thunk, setup=setup)
 
         def oracle(v):
@@ -344,17 +349,36 @@ def _uuid_rules(ctx):
         def thunk(interp):
             return interp.call(g, [K(dashed)])
         outcomes, _i = extract(world, thunk)
-        ok = len(outcomes) == 1 and outcomes[0].kind == 'return'
-        v = outcomes[0].value if ok else None
-        if dashed:
-            good = isinstance(v, T) and v.op == 'call' and \
-                v.args[0] == 'str' and isinstance(v.args[1], T) and \
-                v.args[1].op == 'ret' and v.args[1].args[0] == 'uuid.uuid4'
-        else:
-            good = isinstance(v, T) and v.op == 'attr' and \
-                v.args[1] == 'hex' and isinstance(v.args[0], T) and \
-                v.args[0].op == 'ret' and v.args[0].args[0] == 'uuid.uuid4'
+        notes = inexact_notes(outcomes)
+        if notes or len(outcomes) != 1:
+            rep.undecided('R14.4', 'generate_uuid[dashed=%s]' % dashed,
+                          'inexact: %s (%d paths)' % (notes, len(outcomes)))
+            continue
+        o = outcomes[0]
+        v = o.value if o.kind == 'return' else None
+        # the result is evaluated with every fresh uuid4() standing for one
+        # fixed UUID: it must be that UUID's canonical text / its 32 digits,
+        # however it is spelled in the code, and uuid4() is called once
+        fixed = _uuid.UUID('12345678-9abc-4def-8123-456789abcdef')
+        fresh = [e for e in o.effects if e[0] == 'call' and
+                 e[1] == 'uuid.uuid4']
+
+        def fresh_hook(t, val):
+            if isinstance(t, T) and t.op == 'ret' and \
+                    t.args[0] == 'uuid.uuid4':
+                return fixed
+            return NotImplemented
+        try:
+            got = ev(v, {}, [fresh_hook, _uuid_hook]) if v is not None \
+                else None
+        except (CannotEval, Raised) as e:
+            rep.undecided('R14.4', 'generate_uuid[dashed=%s]' % dashed,
+                          'cannot evaluate %s: %s' % (show(v), e))
+            continue
+        want = str(fixed) if dashed else fixed.hex
+        good = len(fresh) == 1 and type(got) is str and got == want
         rep.check('R14.4', 'generate_uuid[dashed=%s]' % dashed, bool(good),
-                  'returns %s of a fresh uuid.uuid4(); found %s' % (
-                      'str()' if dashed else '.hex', show(v)))
+                  'returns %s of one fresh uuid.uuid4(); found %s (%r for '
+                  '%s)' % ('the canonical text' if dashed else
+                           'the 32 hex digits', show(v), got, fixed))
         rep.case({'dashed': dashed, 'result': show(v)}, ('gen', dashed))
